@@ -214,3 +214,11 @@ pub proof fn lemma_dt_bal_nonneg(t: Seq<u8>, n: int)
         assert(t.subrange(0, 0) =~= Seq::<u8>::empty());
     }
 }
+
+/// whether index k terminates the construct depends only on the bytes up to k
+pub proof fn lemma_bang_term_prefix(ty: BangType, t: Seq<u8>, n: int, k: int)
+    requires 0 <= k < n <= t.len()
+    ensures bang_term(ty, t.subrange(0, n), k) == bang_term(ty, t, k)
+{
+    assert(t.subrange(0, n).subrange(0, k) =~= t.subrange(0, k));
+}
